@@ -14,7 +14,10 @@ structure MatchContract (t : Nat) (m : MatcherI) (Mt : Bytes → Nat → Nat →
     (G : Bytes → Nat → Nat → Prop) : Prop where
   bounds : ∀ {hay s e}, Mt hay s e → s ≤ e ∧ e ≤ hay.length
   noTerm : ∀ {hay s e}, Mt hay s e → ∀ x, s ≤ x → x < e → hay[x]? ≠ some t
-  shortest_some : ∀ {hay i}, m.shortestAt hay 0 = some i → ∃ s, Mt hay s i ∧ ∀ s' e', Mt hay s' e' → s ≤ s'
+  /-- the reported end belongs to a match, and no match of the haystack ends strictly before that match starts
+  (weaker than "minimal start": regex-automata 0.4.7 does not always return the leftmost match — validated by the
+  C11 harness — but it never jumps over a match; with `noTerm` this is all the fast path needs) -/
+  shortest_some : ∀ {hay i}, m.shortestAt hay 0 = some i → ∃ s, Mt hay s i ∧ ∀ s' e', Mt hay s' e' → s ≤ e'
   shortest_none : ∀ {hay}, m.shortestAt hay 0 = none → ∀ s e, ¬ Mt hay s e
   /-- context independence on a line window `[w, w + c]` of any haystack that passes the window guard `G` -/
   ctx : ∀ (hay : Bytes) (w c : Nat), G hay w c → (w = 0 ∨ hay[w - 1]? = some t) → (w + c = hay.length ∨ hay[w + c]? = some t) →
@@ -364,7 +367,14 @@ theorem lineSafe_of_contract (L : Layout t buf sl) (hlen : buf.length = offsetAt
         · exact h
         · exact absurd hlt h
       · exact no_match_before L hlen hlt hc hG p j (by omega) (fun j' h1 h2 => by omega)
-          (fun s' e' h' => by have := hleft s' e' h'; omega)
+          (fun s' e' h' => by
+            -- a match starting before line `j` would end at or after `s` (hleft), hence contain the terminator
+            -- that precedes line `j`
+            have hle := hleft s' e' h'
+            apply Classical.byContradiction; intro hlt'
+            rcases W.before with hb | hb
+            · omega
+            · exact hc.noTerm h' _ (by omega) (by omega) hb)
     · right
       have hl : (buf.drop (offsetAt sl p)).length = buf.length - offsetAt sl p := by simp
       have hpn : offsetAt sl p ≤ buf.length := by rw [hlen]; exact off_mono sl (by omega)
@@ -375,7 +385,18 @@ theorem lineSafe_of_contract (L : Layout t buf sl) (hlen : buf.length = offsetAt
           subst this
           have e : sl.length - 1 + 1 = sl.length := by omega
           rw [e]; exact hnx)
-        (fun s' e' h' => by have := hleft s' e' h'; rw [← hlen]; omega)
+        (fun s' e' h' => by
+          -- a match ending at the very end of a terminated buffer but starting earlier would contain the final terminator
+          have hle := hleft s' e' h'
+          have hb' := hc.bounds h'
+          rw [← hlen]
+          apply Classical.byContradiction; intro hlt'
+          have hjl : sl.length - 1 < sl.length := by omega
+          have W := window L hlen p (sl.length - 1) (by omega) hjl
+          have hpo : offsetAt sl p ≤ offsetAt sl (sl.length - 1) := off_mono sl (by omega)
+          rcases W.after with ha | ha
+          · omega
+          · exact hc.noTerm h' _ (by omega) (by omega) ha)
       exact fun j h1 h2 => hnb j h1 h2
   · -- candidate
     intro p i hp hcand
